@@ -77,8 +77,9 @@ CHECKS["C02"] = dict(level="model_checking", design="5/C02", text=_parse_text + 
     "through the hook oq3_parser::verif::drive, delivered steps compared. Conversely the Marker-API calls the real grammar makes on corpus/mutated/random texts are recorded (hook keep_ops) "
     "and validated by TLC against EventsTrace.tla: the grammar is a disciplined client and the real raw events and builder steps are exactly what the machine spec computes (400 / 5 000 parses).",
     note="clauses evaluated natively at scale and by TLC on the recorded sample; protocol model bounded to 2-3 raw tokens and 7-9 calls", technique="TLA+ machine spec of the event protocol model-checked by TLC + every behaviour replayed into the real Marker API; TLA+ tree-shape requirement checked by TLC on recorded trees + native evaluation at scale", engine="walker+tlc")
-CHECKS["C12"] = dict(level="model_checking", design="5/C12", text=_parse_text + "C12 verdict: TreeShape!SpansValid and ErrorHasDiag on every observation (syntax diagnostics); semantic spans are covered by the analyser checks.",
-    note="syntax and lexical diagnostics only in this check", technique="TLA+ span/tree monitors checked by TLC on recorded observations + native evaluation at scale", engine="walker+tlc")
+CHECKS["C12"] = dict(level="model_checking", design="5/C12", text=_parse_text + "C12 verdict: TreeShape!SpansValid and ErrorHasDiag on every observation (syntax diagnostics). Semantic diagnostics: every program generated from the analyser machine spec "
+    "(Analyzer.tla) and a stride sample of the include arrangements generated from Includes.tla are analysed; every semantic diagnostic of every list (main text, each included file, unreadable files) must be the range of a node of the tree of THAT list's file.",
+    note="semantic spans are evaluated by the harness on model-generated programs and arrangements", technique="TLA+ span/tree monitors checked by TLC on recorded observations + native evaluation at scale", engine="walker+tlc")
 _gram = ("RefGrammar.tla states the supported OpenQASM 3 subset as abstract syntax with a printer that inserts exactly the parentheses the language's precedence "
     "table requires (or redundant ones); GrammarCases.tla derives finite case families that TLC evaluates and prints; the harness renders every case under 4 layouts and "
     "drives the real front end. ")
